@@ -1,8 +1,9 @@
 /-
   C09 — the two value rules against §5.6 Values Of Correct Type: DefaultValuesOfCorrectType = its
-  default-value half (relative to `DefaultsAgree`), ArgumentsOfCorrectType = its argument half for
-  documents whose arguments are literals without variables (`DocVarFree`, relative to
-  `ArgLiteralsAgree`: `is_valid_input_value` and §5.6.1 agree on the literals that occur).
+  default-value half (relative to `DefaultsAgree`), ArgumentsOfCorrectType (repaired: it judges the
+  argument as written, variables being acceptable anywhere; the pinned behaviour is the toggle
+  `argsJudgedAfterSubstitution`) = its argument half, relative to `ArgLiteralsAgree`:
+  `is_valid_input_value` over literals and §5.6.1 agree on the arguments that occur.
 -/
 import AGV.Lemmas.ValidateKnownArgs
 set_option linter.unusedSectionVars false
@@ -183,10 +184,7 @@ def acM (S : VSchema) (vars : List (String × GValue)) (opName : Option String) 
     | .exitField => ((none, st.2), [])
     | .enterArg n v =>
       (st, match st.1.bind (fun ds => ds.find? (·.name = n)) with
-        | some a =>
-          (match substVars (if st.2 then [] else vars) v with
-           | some c => if validInput S {} Model.Validate.valueFuel a.ty c then [] else [Kind.argInvalid]
-           | none => [])
+        | some a => if validLit S {} Model.Validate.valueFuel a.ty v then [] else [Kind.argInvalid]
         | none => [])
     | _ => (st, [])
 
@@ -204,31 +202,28 @@ theorem ruleArgsCorrect_eq (S : VSchema) (vars opName) (cur unsel evs) :
       simp only [ruleArgsCorrect, Machine.run_cons, ih]
       cases h1 : cur.bind (fun ds => ds.find? (·.name = n)) with
       | none => simp [acM, h1]
-      | some a => cases h2 : substVars (if unsel then [] else vars) v <;> simp [acM, h1, h2]
+      | some a => simp [acM, h1]
     | _ => simp [ruleArgsCorrect, Machine.run_cons, acM, ih]
 
 /-- the verdict on the literal arguments of one site -/
 def judgeVals (S : VSchema) (defs : Option (List ArgDef)) (args : List (String × DValue)) : List Model.Validate.Kind :=
   args.flatMap (fun a => match defs.bind (fun ds => ds.find? (·.name = a.1)) with
-    | some ad => if validInput S {} Model.Validate.valueFuel ad.ty (constOf a.2) then [] else [Kind.argInvalid]
+    | some ad => if validLit S {} Model.Validate.valueFuel ad.ty a.2 then [] else [Kind.argInvalid]
     | none => [])
 
-theorem acM_args (S : VSchema) (vars opName) (st defs) (cur : Option (List ArgDef)) (u : Bool) (args : List (String × DValue))
-    (hv : argsVarFree args) :
+theorem acM_args (S : VSchema) (vars opName) (st defs) (cur : Option (List ArgDef)) (u : Bool) (args : List (String × DValue)) :
     (acM S vars opName).run (cur, u) (walkArgs S {} st defs args) = judgeVals S cur args
     ∧ (acM S vars opName).final (cur, u) (walkArgs S {} st defs args) = (cur, u) := by
   induction args with
   | nil => exact ⟨rfl, rfl⟩
   | cons a as ih =>
-    have ih := ih (fun x hx => hv x (by simp [hx]))
-    have hsub := (substVars_varFree (if u then [] else vars) a.2 (hv a (by simp))).1
     rw [walkArgs_cons]
     simp only [Machine.run_cons, Machine.final]
     have h1 : (acM S vars opName).step (cur, u) (mk st (.enterArg a.1 a.2)) =
         ((cur, u), match cur.bind (fun ds => ds.find? (·.name = a.1)) with
-          | some ad => if validInput S {} Model.Validate.valueFuel ad.ty (constOf a.2) then [] else [Kind.argInvalid]
+          | some ad => if validLit S {} Model.Validate.valueFuel ad.ty a.2 then [] else [Kind.argInvalid]
           | none => []) := by
-      simp only [acM, mk, hsub]
+      simp only [acM, mk]
     rw [h1]
     simp only []
     rw [show ∀ x, (acM S vars opName).step (cur, u) (mk st (.inputVars x)) = ((cur, u), []) from fun _ => rfl,
@@ -238,14 +233,13 @@ theorem acM_args (S : VSchema) (vars opName) (st defs) (cur : Option (List ArgDe
 def dirsAC (S : VSchema) (ds : List Dir) : List Model.Validate.Kind :=
   ds.flatMap (fun dr => judgeVals S ((S.dir? dr.name).map (·.args)) dr.args)
 
-theorem acM_dirs (S : VSchema) (vars opName) (st) (cur : Option (List ArgDef)) (u : Bool) (ds : List Dir) (hv : dirsVarFree ds) :
+theorem acM_dirs (S : VSchema) (vars opName) (st) (cur : Option (List ArgDef)) (u : Bool) (ds : List Dir) :
     (acM S vars opName).run (cur, u) (walkDirs S {} st ds) = dirsAC S ds
     ∧ ((acM S vars opName).final (cur, u) (walkDirs S {} st ds)).2 = u := by
   induction ds generalizing cur with
   | nil => exact ⟨rfl, rfl⟩
   | cons dr ds ih =>
-    have ih := fun c => ih c (fun x hx => hv x (by simp [hx]))
-    have ha := acM_args S vars opName st ((S.dir? dr.name).map (·.args)) ((S.dir? dr.name).map (·.args)) u dr.args (hv dr (by simp))
+    have ha := acM_args S vars opName st ((S.dir? dr.name).map (·.args)) ((S.dir? dr.name).map (·.args)) u dr.args
     rw [walkDirs_cons]
     simp only [Machine.run_cons, Machine.run_append, Machine.final, Machine.final_append, dirsAC, List.flatMap_cons]
     rw [show (acM S vars opName).step (cur, u) (mk st (.enterDir dr)) = (((S.dir? dr.name).map (·.args), u), []) from rfl]
@@ -284,7 +278,7 @@ def nodeAC (S : VSchema) (st : Stack) : Sel → List Model.Validate.Kind
   | .spread _ ds _ => dirsAC S ds
   | .inline _ ds _ _ => dirsAC S ds
 
-theorem acM_pre (S : VSchema) (vars opName) (s : ACState) (st sel) (hv : selVarFree sel) :
+theorem acM_pre (S : VSchema) (vars opName) (s : ACState) (st sel) :
     (acM S vars opName).run s (preEvents S st sel) = nodeAC S st sel := by
   obtain ⟨c, u⟩ := s
   cases sel with
@@ -297,15 +291,15 @@ theorem acM_pre (S : VSchema) (vars opName) (s : ACState) (st sel) (hv : selVarF
         ((fieldDefs S st n, u), []) := by
       simp only [acM, mk, par_cons, fieldDefs]
     rw [hstep]
-    have ha := acM_args S vars opName (fieldTy S st n :: st) (fieldDefs S st n) (fieldDefs S st n) u args hv.1
+    have ha := acM_args S vars opName (fieldTy S st n :: st) (fieldDefs S st n) (fieldDefs S st n) u args
     simp only [List.nil_append, ha.1, ha.2, List.append_nil]
-    rw [(acM_dirs S vars opName _ _ u ds hv.2).1]
+    rw [(acM_dirs S vars opName _ _ u ds).1]
   | spread n ds p =>
     simp only [preEvents, Machine.run_cons, Machine.run_append, nodeAC, Machine.run_nil]
     rw [show (acM S vars opName).step (c, u) (mk st .enterSel) = ((c, u), []) from rfl]
     simp only [List.nil_append]
     rw [show (acM S vars opName).step (c, u) (mk st (.enterSpread n ds)) = ((c, u), []) from rfl]
-    simp only [List.nil_append, (acM_dirs S vars opName _ _ u ds hv).1]
+    simp only [List.nil_append, (acM_dirs S vars opName _ _ u ds).1]
     simp [acM, mk]
   | inline cnd ds ss p =>
     simp only [preEvents, Machine.run_cons, Machine.run_append, nodeAC,
@@ -313,7 +307,7 @@ theorem acM_pre (S : VSchema) (vars opName) (s : ACState) (st sel) (hv : selVarF
     rw [show (acM S vars opName).step (c, u) (mk st .enterSel) = ((c, u), []) from rfl]
     simp only [List.nil_append]
     rw [show (acM S vars opName).step (c, u) (mk (inlineSt S st cnd) (.enterInline cnd ds ss)) = ((c, u), []) from rfl]
-    simp only [List.nil_append, (acM_dirs S vars opName _ _ u ds hv).1, List.append_nil]
+    simp only [List.nil_append, (acM_dirs S vars opName _ _ u ds).1, List.append_nil]
 
 /-- the arguments of the document (fields, directives everywhere) contain no variables -/
 structure DocVarFree (d : Doc) : Prop where
@@ -326,20 +320,20 @@ def opAC (S : VSchema) (o : OpDef) : List Model.Validate.Kind :=
   | some _ => dirsAC S o.dirs
   | none => []
 
-theorem ruleArgsCorrect_events (S : VSchema) (d : Doc) (vars opName) (hs : Served S d) (hV : DocVarFree d) :
+theorem ruleArgsCorrect_events (S : VSchema) (d : Doc) (vars opName) :
     ruleArgsCorrect S {} vars opName none false (events S {} d) =
       d.frags.flatMap (fun f => dirsAC S f.dirs ++ (visitsSels S (fragSt S f) f.sels).flatMap (fun v => nodeAC S v.1 v.2))
       ++ d.ops.flatMap (fun o => opAC S o ++ (opVisits S o).flatMap (fun v => nodeAC S v.1 v.2)) := by
   rw [ruleArgsCorrect_eq,
-    Machine.run_events_on (acM S vars opName) S d (fun _ sel => selVarFree sel) (nodeAC S) (fun f => dirsAC S f.dirs) (opAC S)
-      (fun s st sel h => acM_pre S vars opName s st sel h)
+    Machine.run_events_on (acM S vars opName) S d (fun _ _ => True) (nodeAC S) (fun f => dirsAC S f.dirs) (opAC S)
+      (fun s st sel _ => acM_pre S vars opName s st sel)
       (fun s st sel => Machine.silent (acM S vars opName) notACEv (acM_silent S vars opName) _ (notACEv_post S st sel) s)]
   · intro s f hf
     obtain ⟨c, u⟩ := s
     simp only [fragPre, Machine.run_cons, Machine.run_append,
       Machine.silent (acM S vars opName) notACEv (acM_silent S vars opName) _ (notACEv_enterSet _ _)]
     rw [show (acM S vars opName).step (c, u) (mk (fragSt S f) (.enterFrag f)) = ((c, u), []) from rfl]
-    simp only [List.nil_append, (acM_dirs S vars opName _ _ u f.dirs (hV.frags f hf)).1, List.append_nil]
+    simp only [List.nil_append, (acM_dirs S vars opName _ _ u f.dirs).1, List.append_nil]
   · intro s f
     exact Machine.silent (acM S vars opName) notACEv (acM_silent S vars opName) _ (by simp [fragPost, notACEv_exitSet]; simp [notACEv, mk]) s
   · intro s o ho
@@ -354,15 +348,12 @@ theorem ruleArgsCorrect_events (S : VSchema) (d : Doc) (vars opName) (hs : Serve
       have hst : ∃ c' u', (acM S vars opName).final ((acM S vars opName).step (c, u) (mk [] (.enterOp o))).1 (varEvents (opSt S r) o.vars) = (c', u') :=
         ⟨_, _, rfl⟩
       obtain ⟨c', u', hst⟩ := hst
-      rw [hst, (acM_dirs S vars opName _ _ u' o.dirs (hV.ops o ho)).1]
+      rw [hst, (acM_dirs S vars opName _ _ u' o.dirs).1]
       simp [acM, mk]
   · intro s o
     exact Machine.silent (acM S vars opName) notACEv (acM_silent S vars opName) _ (by unfold opPost; cases rootOf S o.ty <;> simp [notACEv_exitSet] <;> simp [notACEv, mk]) s
   · intro s; simp [acM, mk]
-  · intro v hv
-    apply hV.sels
-    rw [← docSels_served S d hs, ← docVisits_snd]
-    exact List.mem_map_of_mem hv
+  · intro _ _; trivial
 
 end AGV.Lemmas.ValidateRules
 
@@ -370,10 +361,10 @@ namespace AGV.Lemmas.ValidateRules
 open AGV.Core AGV.Model.Validate AGV.Lemmas.ValidateWalk AGV.Lemmas.ValidateMachine AGV.Lemmas.ValidateSpecNodes
 open AGV.Spec.Validate (tyDef fieldType litOk litOf varsIn argSites)
 
-/-- at this argument site `is_valid_input_value` and §5.6.1 agree on the (variable-free) literals given -/
+/-- at this argument site `is_valid_input_value` over literals and §5.6.1 agree on the arguments given -/
 def SiteAgree (S : VSchema) (s : Option (List ArgDef) × List (String × DValue)) : Prop :=
   ∀ a ∈ s.2, ∀ ad, s.1.bind (fun ds => ds.find? (·.name = a.1)) = some ad →
-    validInput S {} Model.Validate.valueFuel ad.ty (constOf a.2) = litOk S Spec.Validate.valueFuel ad.ty a.2
+    validLit S {} Model.Validate.valueFuel ad.ty a.2 = litOk S Spec.Validate.valueFuel ad.ty a.2
 
 theorem site_iff (S : VSchema) (defs : Option (List ArgDef)) (args : List (String × DValue)) (hA : SiteAgree S (defs, args)) :
     Kind.argInvalid ∈ judgeVals S defs args ↔ siteBadValue S (defs, args) = true := by
@@ -514,10 +505,9 @@ theorem typed_exists_mem (S : VSchema) (d : Doc) (hT : TypedSchema S) (hs : Serv
 /-- `is_valid_input_value` and §5.6.1 agree on every literal argument of the document -/
 def ArgLiteralsAgree (S : VSchema) (d : Doc) : Prop := ∀ s ∈ argSites S d, SiteAgree S s
 
-/-- ArgumentsOfCorrectType = the argument half of §5.6 Values Of Correct Type, for documents whose
-    arguments are literals without variables -/
+/-- ArgumentsOfCorrectType (repaired) = the argument half of §5.6 Values Of Correct Type -/
 theorem rule_arguments_of_correct_type (S : VSchema) (d : Doc) (vars opName) (hT : TypedSchema S) (hs : Served S d)
-    (hr : RootsExist S d) (hV : DocVarFree d) (hA : ArgLiteralsAgree S d) :
+    (hr : RootsExist S d) (hA : ArgLiteralsAgree S d) :
     Kind.argInvalid ∈ ruleArgsCorrect S {} vars opName none false (events S {} d) ↔
       (argSites S d).any (siteBadValue S) = true := by
   have hAsel : ∀ w ∈ specDocVisits S d, ∀ x ∈ selSites S w, SiteAgree S x := by
@@ -542,7 +532,7 @@ theorem rule_arguments_of_correct_type (S : VSchema) (d : Doc) (vars opName) (hT
   rw [hspec, ← typed_exists_mem S d hT hs hr (fun v => Kind.argInvalid ∈ nodeAC S v.1 v.2)
     (fun w => (selSites S w).any (siteBadValue S) = true)
     (fun st parent s h hm => ac_agree S hT st parent s h (hAsel _ hm))]
-  rw [ruleArgsCorrect_events S d vars opName hs hV, mem_folded (S := S) (d := d) (nodeAC S) (fun f => dirsAC S f.dirs) (opAC S)]
+  rw [ruleArgsCorrect_events S d vars opName, mem_folded (S := S) (d := d) (nodeAC S) (fun f => dirsAC S f.dirs) (opAC S)]
   have hop : ∀ o ∈ d.ops, opAC S o = dirsAC S o.dirs := by
     intro o ho
     have := hs o ho
@@ -561,7 +551,7 @@ theorem rule_arguments_of_correct_type (S : VSchema) (d : Doc) (vars opName) (hT
 /-- `SiteAgree` as a check -/
 def siteAgreeB (S : VSchema) (s : Option (List ArgDef) × List (String × DValue)) : Bool :=
   s.2.all (fun a => match s.1.bind (fun ds => ds.find? (·.name = a.1)) with
-    | some ad => validInput S {} Model.Validate.valueFuel ad.ty (constOf a.2) == litOk S Spec.Validate.valueFuel ad.ty a.2
+    | some ad => validLit S {} Model.Validate.valueFuel ad.ty a.2 == litOk S Spec.Validate.valueFuel ad.ty a.2
     | none => true)
 
 theorem siteAgreeB_iff (S : VSchema) (s : Option (List ArgDef) × List (String × DValue)) :
